@@ -382,6 +382,11 @@ class Interp:
         # lengths of tuples
         if isinstance(a, Const) and isinstance(b, Const) is False and isinstance(a.v, int) and isinstance(b, Const):
             pass
+        def _is_label(v):
+            return isinstance(v, StrV) or (isinstance(v, Idx) and v.kind == 'LBL')
+        if opn in ('lt', 'le', 'gt', 'ge') and _is_label(a) and _is_label(b):
+            self.selfobj.attrs['__label_order__'] = Const(n.lineno)
+            return self.choose(2, 'string order of two labels') == 0
         # two user-given positions of one axis (start and stop of one slice): the three orderings are explored, and the
         # one chosen is remembered for the path (the inclusive stop makes start == stop a one-row selection)
         if isinstance(a, Idx) and isinstance(b, Idx) and a.kind == 'U1' and b.kind == 'U1' and a.src != b.src:
@@ -734,7 +739,7 @@ def check_axis(sl, spec, axis, problems, form, check_step=True):
         problems.append((form, 'step', f"{axis} single index has a step {sl.step!r}"))
 
 
-def explore(slicer_cls: ast.ClassDef, max_paths=20000, post=None):
+def explore(slicer_cls: ast.ClassDef, max_paths=20000, post=None, pre=None):
     """Explore Slicer.__init__ for every selector form; returns statistics and problems."""
     F = {m.name: m for m in slicer_cls.body if isinstance(m, ast.FunctionDef)}
     if '__init__' not in F:
@@ -762,6 +767,17 @@ def explore(slicer_cls: ast.ClassDef, max_paths=20000, post=None):
             it.pos_holder = [0]
             outcome = None
             try:
+                # what the wrappers do to the selector before it reaches this constructor (Plate.__getitem__, the
+                # statements of PlateSlicer.__init__ in front of the call of this constructor)
+                for names, stmts, item_expr in (pre or ()):
+                    plate = Obj('Plate')
+                    plate.attrs.update({'n_rows': Len('row'), 'n_columns': Len('col'), 'row_names': Labels('row'),
+                                        'column_names': Labels('col'), 'wells': Other('ndarray')})
+                    for nm, role in names.items():
+                        it.env[nm] = plate if role == 'plate' else it.env[params[4]] if role == 'item' else selfobj
+                    it.run(stmts)
+                    it.env[params[4]] = it.ev(item_expr)
+                it.env[params[0]] = selfobj
                 it.run(init.body)
                 if post is not None:
                     # the statements of the subclass constructor that follow the call of this constructor
@@ -819,6 +835,13 @@ def explore(slicer_cls: ast.ClassDef, max_paths=20000, post=None):
                 t = outcome.split()[1]
                 if t not in ('ValueError', 'TypeError'):
                     problems.append((name, 'error-type', f"rejection with {t} instead of ValueError/TypeError"))
+                elif t == 'TypeError' and expect[0] in ('sel', 'list'):
+                    problems.append((name, 'type-refused', f"a selector of a documented type is refused with TypeError "
+                                                           f"(line {sorted(rejected_types)[-1][1]}): only its value can be wrong"))
+            if '__label_order__' in selfobj.attrs:
+                problems.append((name, 'label-order', f"two labels are compared as strings (line "
+                                                      f"{selfobj.attrs['__label_order__'].v}): their alphabetical order is not "
+                                                      f"their order on the plate ('9' sorts after '10', 'Z' after 'AB')"))
             for i in range(len(prefix), len(it.choices)):
                 for alt in range(1, arity[i] if i < len(arity) else 2):
                     stack.append(it.choices[:i] + [alt])
